@@ -11,9 +11,9 @@ import numpy as np
 from . import core
 
 NAME_SCHEMES = [
-    {"x": "x", "y": "y", "w": "w", "i": "i", "j": "j", "k": "k", "a": "a", "n": "n"},
-    {"x": "x", "y": "x_1", "w": "cond", "i": "i", "j": "j", "k": "k", "a": "a", "n": "n"},      # user names that look like generated ones
-    {"x": "y_0", "y": "y", "w": "cond_out", "i": "i_2", "j": "i", "k": "k", "a": "a", "n": "n"},
+    {"x": "x", "y": "y", "w": "w", "b": "b", "i": "i", "j": "j", "k": "k", "a": "a", "n": "n"},
+    {"x": "x", "y": "x_1", "w": "cond", "b": "cond_1", "i": "i", "j": "j", "k": "k", "a": "a", "n": "n"},      # user names that look like generated ones
+    {"x": "y_0", "y": "y", "w": "cond_out", "b": "not_break", "i": "i_2", "j": "i", "k": "k", "a": "a", "n": "n"},
 ]
 
 
@@ -53,6 +53,8 @@ def expr_src(e, nm):
         return f"op.Squeeze(v[{c}:{c + 1}])"
     if op == "attr":
         return f"{A} * alpha"
+    if op == "kw":
+        return f"op.Add({A}, B={B} * 1)"
     raise ValueError(op)
 
 
@@ -88,7 +90,7 @@ def block_src(b, nm, ind):
             out.append(f"{pad}while {nm['w']}:")
             out += block_src(s["t"], nm, ind + 1)
         elif k == "brk":
-            out.append(f"{pad}if {nm['w']}:")
+            out.append(f"{pad}if {nm[s['v']]}:")
             out.append(f"{pad}    break")
         else:
             raise ValueError(k)
